@@ -104,19 +104,29 @@ Verdict(r, ik) ==
 
 (* Faults on the DER of a signed response.  Regions are located by the harness' own TLV
    walk.  A one-bit change inside
-     tbs          the tbsResponseData element         -> the signed message changes
-     sig          the signature BIT STRING            -> no longer the signature term
-     alg          the signatureAlgorithm, except its parameters -> another (or no) algorithm
-     cert_tbs / cert_sig / cert_alg   the same three regions of the first embedded certificate
-     wrapper      any other octet (outer headers, status, response type, lengths)
-                  -> not this response any more: "any tampering ... is rejected"
-     alg_params / cert_alg_params     the NULL parameters of an RSA algorithm identifier:
-                  covered by no signature and without meaning -> left open
+     tbs        the tbsResponseData element          -> the signed message changes
+     sig        the signature BIT STRING             -> no longer the signature term
+     alg        the response's signatureAlgorithm, except its parameters
+                                                     -> another (or no) algorithm
+     cert_tbs / cert_sig   the signed part / the signature of the first embedded certificate
+     status     the responseStatus element           -> no longer a successful response
+     resptype   the responseType OID                 -> no longer a basic OCSP response
+   must lead to rejection: "any tampering of a signed response is rejected".
+   Left open (rule 1) are the octets that no signature covers and that carry no meaning for
+   the acceptance rule; the code may accept or reject, but an accepted response must still
+   show exactly the expected fields:
+     alg_params the NULL parameters of an RSA algorithm identifier
+     cert_alg   the *outer* signatureAlgorithm of the embedded certificate (zcrypto, like the
+                older standard library, verifies with the copy inside the signed
+                tbsCertificate and does not compare the two)
+     headers    identifier / length octets of the enclosing SEQUENCE, EXPLICIT and OCTET
+                STRING wrappers (Go's asn1 decoders ignore the length of an EXPLICIT
+                wrapper; strictness of DER decoding is C19's subject, not C13's)
    and whole-element faults
-     swap(c)      replace the embedded certificate by certificate c
-     drop         remove the embedded certificates
-     reorder      permute the single responses inside tbsResponseData (a change of tbs) *)
-VoidRegions == {"alg_params", "cert_alg_params"}
+     swap(c)    replace the embedded certificate by certificate c
+     drop       remove the embedded certificates
+     reorder    permute the single responses inside tbsResponseData (a change of tbs) *)
+VoidRegions == {"alg_params", "cert_alg", "headers"}
 
 SetCert(r, c) == [r EXCEPT !.certs = <<c>> \o SubSeq(r.certs, 2, Len(r.certs))]
 
@@ -128,18 +138,60 @@ Fault(r, f) ==
     [] f.kind = "alg"      -> [r EXCEPT !.alg = "other"]
     [] f.kind = "cert_tbs" -> SetCert(r, [r.certs[1] EXCEPT !.tbs.id = "tampered"])
     [] f.kind = "cert_sig" -> SetCert(r, [r.certs[1] EXCEPT !.sig = GarbageCertSig])
-    [] f.kind = "cert_alg" -> SetCert(r, [r.certs[1] EXCEPT !.alg = "other"])
-    [] f.kind = "wrapper"  -> [r EXCEPT !.malformed = TRUE]
+    [] f.kind \in {"status", "resptype"} -> [r EXCEPT !.malformed = TRUE]
     [] f.kind = "swap"     -> SetCert(r, f.cert)
     [] f.kind = "drop"     -> [r EXCEPT !.certs = <<>>]
     [] f.kind \in VoidRegions -> r
 
 FaultApplies(r, f) ==
-  CASE f.kind \in {"cert_tbs", "cert_sig", "cert_alg", "cert_alg_params", "swap", "drop"} -> Len(r.certs) > 0
+  CASE f.kind \in {"cert_tbs", "cert_sig", "cert_alg", "swap", "drop"} -> Len(r.certs) > 0
     [] OTHER -> TRUE
 
 FaultVerdict(r, f, ik) ==
   IF f.kind \in VoidRegions THEN "open" ELSE Verdict(Fault(r, f), ik)
+
+----------------------------------------------------------------------------
+(* scenario world: the concrete PKI every generated / recorded case lives in.
+   Scenario == [signer |-> key role, responder |-> certificate id passed as responderCert,
+                embedded |-> certificate id or "none", verifier |-> certificate id of the
+                issuer handed to ParseResponse].
+   Key roles: KI issuer, KO another CA, KR delegated responder, KX a stranger.
+   Certificates (subject, key, issuer name, signing key):
+     I  (I,KI,I,KI)  O (O,KO,O,KO)   the two CAs (self-signed)
+     R  (R,KR,I,KI)  delegated responder, properly issued
+     R2 (R,KR,I,KI)  a second certificate for the same responder key
+     Ro (R,KR,O,KO)  responder certified by the other CA
+     Rf (R,KR,I,KO)  names the issuer but is signed by the other CA's key
+     Rs (R,KR,R,KR)  self-signed responder
+     Rx (X,KX,I,KI)  properly issued certificate of a stranger *)
+CertSpec == [I  |-> <<"I", "KI", "I", "KI">>, O  |-> <<"O", "KO", "O", "KO">>,
+             R  |-> <<"R", "KR", "I", "KI">>, R2 |-> <<"R", "KR", "I", "KI">>,
+             Ro |-> <<"R", "KR", "O", "KO">>, Rf |-> <<"R", "KR", "I", "KO">>,
+             Rs |-> <<"R", "KR", "R", "KR">>, Rx |-> <<"X", "KX", "I", "KI">>]
+CertIds == {"I", "O", "R", "R2", "Ro", "Rf", "Rs", "Rx"}
+
+AlgOf(key) == "alg-" \o key        \* the algorithm a key signs with (one per key here)
+
+CertOf(id) ==
+  LET s == CertSpec[id]
+      tbs == [subj |-> s[1], key |-> s[2], id |-> id] IN
+  [tbs |-> tbs, alg |-> AlgOf(s[4]), sig |-> Sig(s[4], AlgOf(s[4]), tbs)]
+
+Resp(sc) ==
+  [tbs |-> "m", alg |-> AlgOf(sc.signer), sig |-> Sig(sc.signer, AlgOf(sc.signer), "m"),
+   certs |-> IF sc.embedded = "none" THEN <<>> ELSE <<CertOf(sc.embedded)>>, malformed |-> FALSE]
+
+KeyOfCert(id) == CertSpec[id][2]
+SubjectOf(id) == CertSpec[id][1]     \* the responder name a response carries
+
+Scenarios ==
+  {[signer |-> k, embedded |-> e, responder |-> IF e = "none" THEN "I" ELSE e, verifier |-> v] :
+     k \in {"KI", "KR", "KX"}, e \in {"none", "R", "Ro", "Rf", "Rs", "Rx"}, v \in {"I", "O"}}
+
+ScVerdict(sc) == Verdict(Resp(sc), KeyOfCert(sc.verifier))
+
+Direct1   == [signer |-> "KI", embedded |-> "none", responder |-> "I", verifier |-> "I"]
+Delegated == [signer |-> "KR", embedded |-> "R",    responder |-> "R", verifier |-> "I"]
 
 ----------------------------------------------------------------------------
 (* (4) ParseResponseForCert: singles == Seq([serial, mark]); the result is the index of the
